@@ -224,7 +224,7 @@ type c05Conn struct {
 }
 
 func newC05Conn(w *c05World, isSrc bool) *c05Conn {
-	return &c05Conn{w: w, isSrc: isSrc, failAt: -1, closedCh: make(chan struct{}), remote: c05Addr("192.0.2.10:5000")}
+	return &c05Conn{w: w, isSrc: isSrc, failAt: -1, closeErr: "-", closedCh: make(chan struct{}), remote: c05Addr("192.0.2.10:5000")}
 }
 
 func (c *c05Conn) isClosed() bool {
@@ -849,6 +849,7 @@ func c05Enumerate(out *vlib.Out, maxR, maxW, maxDl int) {
 				}
 				ans := runC05(out, s)
 				out.Case(s.line(), ans, true)
+				c05Hist(out, s, ans)
 				out.Count("enum")
 			}
 		}
@@ -864,10 +865,13 @@ func c05Random(r *vlib.Rand) *c05Script {
 		}
 		return errs[r.Intn(len(errs))]
 	}
-	n := r.Range(1, 60)
-	big := r.Chance(1, 12)
+	n := r.Range(1, 40)
+	if r.Chance(1, 10) {
+		n = r.Range(40, 400)
+	}
+	big := r.Chance(1, 40)
 	for i := 0; i < n; i++ {
-		sz := r.Intn(65)
+		sz := r.Intn(17)
 		if r.Chance(1, 8) {
 			sz = 0
 		}
@@ -875,7 +879,7 @@ func c05Random(r *vlib.Rand) *c05Script {
 			sz = []int{32 * 1024, 32*1024 - 1, 4096, 20000}[r.Intn(4)]
 		}
 		rd := c05Read{data: r.Bytes(sz), err: "-"}
-		if r.Chance(1, 25) {
+		if r.Chance(1, n+10) {
 			rd.err = pickErr()
 		}
 		s.reads = append(s.reads, rd)
@@ -887,13 +891,13 @@ func c05Random(r *vlib.Rand) *c05Script {
 		m := r.Range(1, n)
 		for i := 0; i < m; i++ {
 			w := c05Write{32 * 1024, "-"}
-			if r.Chance(1, 12) {
-				w.accept = r.Intn(40)
+			if r.Chance(1, n+5) {
+				w.accept = r.Intn(17)
 			}
-			if r.Chance(1, 15) {
+			if r.Chance(1, n+8) {
 				w.err = pickErr()
 				if r.Bool() {
-					w.accept = r.Intn(40)
+					w.accept = r.Intn(17)
 				}
 			}
 			s.writes = append(s.writes, w)
@@ -902,7 +906,7 @@ func c05Random(r *vlib.Rand) *c05Script {
 	if r.Chance(1, 4) {
 		m := r.Range(1, 2*n+2)
 		for i := 0; i < m; i++ {
-			s.dls = append(s.dls, !r.Chance(1, 20))
+			s.dls = append(s.dls, !r.Chance(1, 2*n+4))
 		}
 	}
 	if r.Chance(1, 3) {
@@ -1056,6 +1060,8 @@ func c05ProxyScenarios(r *vlib.Rand, n int) []*c05Proxy {
 
 func TestVerifC05(t *testing.T) {
 	golog.SetOutput(io.Discard) // the package-level logger (unexpected read length diagnostics)
+	Stat() // start the statistics singleton (and its printer goroutine) before goroutines are counted
+	getProxyStats()
 	out := vlib.Open("C05")
 	defer out.Close()
 	if rp := vlib.Replay(); rp != "" {
